@@ -42,7 +42,7 @@ CHECKS = {
         text="KeyToSlot is compared with the specification on every string over {,},a,b up to the bound (every arrangement of braces: empty tags, "
              "unbalanced, nested, repeated) and on all 1-2 byte keys; both CRC16 copies against a bitwise reference on all 1-2 byte inputs; the "
              "checkpoint-key search is run on all singleton ranges and a grid (quick) or on all 134M ranges (thorough); every chosen key must hash "
-             "inside its range and be excluded by the key filter under every filter configuration.",
+             "inside its range and be excluded by the key filter under every filter configuration. Range queries are also asked as histories in one process (all ranges over 23 boundaries whose decimal digits run into each other, twice, in a different order per shard).",
         note="trusts crcref (bitwise CRC16/XMODEM, checked against the published check value 0x31c3) and the specification transcription in crcref.Slot",
         rule="cases = keys / byte strings / slot ranges, each distinct by construction of the enumeration; non-trivial = every case (each compares the real function's result with the reference)",
         parts=[
@@ -57,7 +57,7 @@ CHECKS = {
         technique="exhaustive product (command x arity x pass/fail mask x filter configuration) executed on the real rewrite function, compared with a reference built from Redis' key-position table",
         text="For every command of the tool's write-command table, every arity from the minimum to minimum+3 key groups, every subset of keys passing, "
              "and filter none/whitelist/blacklist, HandleFilterKeyWithCommand's output is compared with a reference rewrite derived from the Redis command "
-             "reference (first/last/step). Non-key arguments are named so that they would be filtered if mistaken for keys.",
+             "reference (first/last/step). Non-key arguments are named so that they would be filtered if mistaken for keys. Every argument position is also tried as the empty string (as a key it passes a blacklist and fails a whitelist).",
         note="trusts the transcription of Redis' key positions in harness/filter/c13_test.go; commands added to the tool's table that the reference does not know are reported as notes, not judged",
         rule="case = (command, argument shape, pass mask, filter config); all distinct; states = distinct cases, transitions = calls; non-trivial = all (each is compared with the reference rewrite)",
         parts=[dict(pkg="./redis-shake/filter", harness=["filter"], test="^TestVerif_C13$", race=True, race_test="^TestVerif_C13Race$", race_shards=1, shards=1, budget=dict(quick=60, thorough=60))],
@@ -84,7 +84,7 @@ CHECKS = {
              "rule), all strings <=6 over {00,01,80,ff}, and every chunking into <=3 writes; Sum/Sum64/Reset. (b) for every single-record RDB of the "
              "catalogue, every byte position x all 255 other values must make header, parsing or the end-of-file check fail; the intact file must pass. "
              "(c) every DUMP payload: intact accepted by DecodeDump and CheckVersionChecksum, every substitution, every truncation below 10 bytes and "
-             "correctly re-sealed payloads with versions above the supported one rejected.",
+             "correctly re-sealed payloads with versions above the supported one rejected. Every intact RDB is also parsed with a short read at every byte position (bare and below a 16-byte bufio.Reader) and 1, 3 and 7 bytes at a time.",
         note="trusts crcref (bitwise CRC-64/Jones, checked against e9c6d914c4b8d9ca) and rdbgen; artefacts longer than 700 bytes are substituted in their first and last 320 bytes only (stated in bounds)",
         rule="case = (artefact, position, substituted byte) or (input, chunking); non-trivial = distinct artefacts / inputs for which the real checker's verdict is compared with the expected one",
         parts=[
@@ -116,7 +116,7 @@ CHECKS = {
              "key (plus version strings, time shift and hash-tag replacement on one representative per type) RestoreRdbEntry runs against a model Redis (real "
              "redigo client over an in-memory connection). Oracle: logical equality of the target key, TTL bracketed by the clock before/after the call, "
              "policy semantics (none: error and target untouched; ignore: untouched; rewrite: source value), no abort (log.Panic or Go panic) for any "
-             "accepted configuration. Coverage is reported per route actually taken (restore, bigkey, quicklist, fallback).",
+             "accepted configuration. Coverage is reported per route actually taken (restore, bigkey, quicklist, fallback). Expiries: none, +1 h, already past, +400 years (beyond an int64 of nanoseconds), and given in seconds.",
         note="trusts mredis' model of RESTORE/BUSYKEY/REPLACE/TTL semantics (A5), rdbgen's logical values and redigo; values with NaN scores and the stream x target-rejects combination are excluded (cannot succeed on any Redis)",
         rule="case = one point of the product; states = distinct cases; transitions = restore calls; non-trivial = every case (each one compares the final target state with the expected one)",
         parts=[dict(pkg="./redis-shake/common", harness=["common"], test="^TestVerif_C02$", shards=16, budget=dict(quick=75, thorough=1500), mem_kb=8*1024*1024)],
@@ -191,7 +191,7 @@ CHECKS = {
              "non-idempotent INCR/RPUSH/APPEND, PING, MULTI/EXEC, sentinel hello, EVAL, OPINFO, keep-alive newline, mixed case) are crossed with the db/key/lua "
              "filters, target.db, resume, sender count/size and start database. Oracle: the commands the model applied (minus the tool's own SELECT/PING/checkpoint "
              "writes) equal, in order, argument for argument and database for database, a pure fold of the stream; no MULTI/EXEC reaches the target when resume is off; "
-             "everything is applied after 1.1 s of idleness; no abort.",
+             "everything is applied after 1.1 s of idleness; no abort. A fourth environment answer pauses 300 ms (less than the flush period) to produce trickling streams; at every quiescent point of the bubble clock every forwarded command whose bytes were delivered 500 ms or more earlier must have been applied.",
         note="trusts testing/synctest (A1), mredis (A5), redigo (A2); asynctimerchan=0 (A3). The cascade between two stimuli runs under the real Go scheduler; it is required to be deterministic and replayed traces must agree. Target stalls are not modelled in this check.",
         rule="execution = (stream, configuration, schedule); states = distinct executions; transitions = environment stimuli applied; non-trivial = the reference fold forwards at least one command",
         parts=[dict(pkg="./redis-shake/dbSync", harness=["dbsync"], test="^TestVerif_C03$", shards=16, gomaxprocs=2, budget=dict(quick=75, thorough=1500))],
@@ -221,7 +221,7 @@ CHECKS = {
              "buffer), cut the source connection} with at most two cuts and an accept/refuse choice at every redial is executed for start offsets 0, 1, 2^31, 2^40. "
              "Oracle: every ACK is <= start + bytes received so far and never decreases; after an idle tick it equals start + bytes received; every reconnect sends "
              "PSYNC <runid> start+received+1; every fully received command is delivered by the parser exactly once across reconnects and tagged with its true end "
-             "position in the stream (the value checkpoints store).",
+             "position in the stream (the value checkpoints store). On every redial the model master refuses, accepts, or accepts and sends +CONTINUE together with the next 7 stream bytes in one write.",
         note="production-size bufio buffers (32 MiB / 8 MiB) are allocated by the reconnect path itself; the first connection uses 4 KiB buffers passed as parameters; the tool gives up by design after its fourth retry, so at most two cuts are explored",
         rule="execution = (start offset, stimulus sequence, dial answers); states = distinct executions; transitions = stimuli; non-trivial = executions containing at least one acknowledgement tick",
         parts=[dict(pkg="./redis-shake/dbSync", harness=["dbsync"], test="^TestVerif_C08$", shards=16, gomaxprocs=2, budget=dict(quick=75, thorough=1200))],
@@ -236,7 +236,7 @@ CHECKS = {
              "with bufio sizes 16 and 4096 and a 4 KiB pipe (so that the 8 KiB copy buffer, the bufio layer and the pipe capacity are all crossed), and through the real "
              "sendPSyncCmd with production sizes for a smaller set. Consumers read eagerly, one byte at a time, or only after the pipe has filled (back-pressure). "
              "Oracle: bytes out of the pipe == RDB || commands exactly; run id, offset and size used == announced; only ACK 0 during the RDB phase. Dump mode is checked by "
-             "C05's second part in package run.",
+             "C05's second part in package run. After the hand-off the full phase is declared finished and the next acknowledged offset must be the announced offset plus exactly the bytes that followed the RDB.",
         note="the small-buffer composition repeats the 25 lines of sendPSyncCmd in the harness (sizes are constants in the tool); the production composition itself is run on a subset",
         rule="execution = (framing, RDB size, tail, bufio size, consumer mode, cut set); states = distinct executions; transitions = segments delivered; non-trivial = executions with at least one cut",
         parts=[dict(pkg="./redis-shake/dbSync", harness=["dbsync"], test="^TestVerif_C05$", shards=16, gomaxprocs=2, budget=dict(quick=75, thorough=1200)),
@@ -251,7 +251,7 @@ CHECKS = {
              "workers and how their SELECT/RESTORE traffic interleaves. RDB files (written by rdbgen) spread keys over databases in several orders, with Lua scripts; "
              "configurations cover target.db, db and key filters, filter.lua, key_exists policies with a pre-existing key, and an injected error reply on the j-th "
              "RESTORE. Oracle at return: every passing key restored exactly once, in its own (or the fixed) database, with its value; filtered keys never; every "
-             "script loaded unless filter.lua; a failed restore or a busy key under key_exists=none must surface as an error or abort, never as a clean return.",
+             "script loaded unless filter.lua; a failed restore or a busy key under key_exists=none must surface as an error or abort, never as a clean return. Retry scenarios start the run again on the same syncer object after the injected failure was reported (as DbSyncer.Sync does) against an emptied target: the second run must restore everything.",
         note="grant orders are explored with a bound on deviations from first-come-first-served (stated in the evidence); which worker dequeues the next entry is left to the Go runtime within one quiescent step (GOMAXPROCS=1, replay checked); a free-running -race pass covers unsynchronised accesses",
         rule="execution = (scenario, grant order); states = distinct grant orders per scenario; transitions = grants; non-trivial = scenarios with more than one worker",
         parts=[dict(pkg="./redis-shake/dbSync", harness=["dbsync"], test="^TestVerif_C07$", race=True, race_test="^TestVerif_C07Race$", race_shards=4, shards=16, gomaxprocs=1, budget=dict(quick=75, thorough=1200)),
@@ -267,7 +267,7 @@ CHECKS = {
              "scan.key_number 1-3, big_key_threshold below/above the payloads, key_exists none/rewrite with and without a pre-existing target key, target.db, key and db "
              "filters, and key-file driven scans with 0..2*page+1 lines. Oracle after exec returns: every surviving, passing key has the source's logical value in "
              "the right database; its remaining TTL at the moment of RESTORE equals the PTTL the source answered (no expiry stays no expiry); vanished and filtered "
-             "keys are skipped without stopping; the run returns within bounded fake time; a busy key under key_exists=none may stop the run but must not be overwritten silently.",
+             "keys are skipped without stopping; the run returns within bounded fake time; a busy key under key_exists=none may stop the run but must not be overwritten silently. A key whose DUMP answered nil must not appear on the target; an expiring key that was gone when PTTL was asked must not appear as a persistent key.",
         note="the order in which databases are visited is a Go map order (not controlled; the oracle is on the final state only); cluster and special-cloud scanners are out of scope",
         rule="case = one point of the product; states = distinct cases; transitions = 4 per case (scan, dump/pttl, restore, confirm phases); non-trivial = all cases",
         parts=[dict(pkg="./redis-shake", harness=["run"], test="^TestVerif_C16$", shards=16, gomaxprocs=2, budget=dict(quick=75, thorough=1200))],
@@ -295,7 +295,7 @@ CHECKS = {
              "case, the checkpoint key and near misses of it, a key named lua) in each of the databases {0,1,2,10,11}: an RDB through the real syncRDBFile and "
              "restoreRDBFile (2 workers), a command stream with SELECTs, script commands in mixed case, OPINFO and a sentinel hello through the real parser and sender, "
              "a model source through the real rump executor. The set of (db,key) pairs that reached the model target must equal the reference predicate for that path; "
-             "Lua scripts / script commands pass exactly when filter.lua is off; OPINFO and sentinel hellos never arrive. The predicates are also compared directly.",
+             "Lua scripts / script commands pass exactly when filter.lua is off; OPINFO and sentinel hellos never arrive. The predicates are also compared directly. The incremental path is additionally crossed with target.db in {-1, every source database (filtered ones too), an unused one}; every SET carries its source database in its value, databases are re-selected in reverse order, and per (db,key) the number of forwarded SETs must equal the number sent.",
         note="key lists and db lists are used one kind at a time per dimension (the tool refuses whitelist and blacklist together for databases); quick crosses key and db lists on a diagonal, thorough fully",
         rule="execution = (path, configuration) carrying len(keys) x len(dbs) independent decisions (counted as transitions); non-trivial = configurations with at least one list set",
         parts=[dict(pkg="./redis-shake/dbSync", harness=["dbsync"], test="^TestVerif_C06$", shards=16, gomaxprocs=2, budget=dict(quick=75, thorough=900)),
@@ -310,10 +310,12 @@ CHECKS = {
              "flow - topology discovery (cluster source), checkpoint load, PSYNC, full sync with 2 workers, incremental sync, source reconnect, restart after a target "
              "error, refused source password - and the restore / rump / dump paths run with the tool's logger redirected to a buffer, at debug level (every statement on "
              "the path formats its arguments) and at info level. After each execution the buffer, json and %v renderings of conf.GetSafeOptions(), DbSyncer.GetExtraInfo() "
-             "and metric.NewMetricRest() are scanned. Coverage is reported as the set of distinct log call sites (file:line) that fired.",
+             "and metric.NewMetricRest() are scanned. Coverage is reported as the set of distinct log call sites (file:line) that fired. A third part drives every connection helper of utils.go against every environment answer (dial refused, AUTH accepted / rejected / unknown to the peer and echoed back, peer closes, cluster start nodes unreachable, a standalone peer behind a loopback listener for the cluster client) x log level x auth_type.",
         note="a monitor can only speak for the statements that the explored paths reach; the evidence lists them. main.go (startup echo) does not compile on the pinned tree, so the echo is checked at conf.GetSafeOptions(), the only thing it prints",
         rule="execution = (path, log level, source type, resume, fault); states = distinct log call sites that fired; non-trivial = all executions (each authenticates with both sentinels)",
         parts=[dict(pkg="./redis-shake/dbSync", harness=["dbsync"], test="^TestVerif_C19$", shards=16, gomaxprocs=2, budget=dict(quick=75, thorough=300)),
-               dict(pkg="./redis-shake", harness=["run"], test="^TestVerif_C19R$", shards=16, gomaxprocs=2, budget=dict(quick=75, thorough=300))],
+               dict(pkg="./redis-shake", harness=["run"], test="^TestVerif_C19R$", shards=16, gomaxprocs=2, budget=dict(quick=75, thorough=300)),
+               # connection helpers x environment answers (incl. the cluster client against a loopback listener)
+               dict(pkg="./redis-shake/common", harness=["common"], test="^TestVerif_C19U$", shards=8, gomaxprocs=2, budget=dict(quick=75, thorough=300))],
     ),
 }
